@@ -202,7 +202,9 @@ func (e *Engine) runJob(h *HarnessSpec, shard, nshards int, solverCmd []string, 
 				res.Status, res.Msg = "bound", x.what
 			case PathBound:
 				res.Status, res.Msg = "bound", fmt.Sprintf("one path ran more than %d steps", w.pathSteps)
-				if r, m := w.solver.check(x.st.pc, true); r == Sat {
+				s2 := newSolver(solverCmd, timeoutMs) // the job's solver is already closed here
+				defer s2.close()
+				if r, m := s2.check(x.st.pc, true); r == Sat {
 					res.Obligations++
 					res.counterexample(w, labelTerminates, x.st, m, w.knownHits(x.st, labelTerminates))
 				}
